@@ -1,6 +1,6 @@
 """C11 — partial and complete parsers agree: sibling agreement (DESIGN §4)."""
 from rules import sib as S
-from rules.core import guarded
+from rules.core import guarded, guarded_soft
 from rules import extra as X
 
 INFO = {
@@ -15,8 +15,8 @@ def run(col, configs, tier):
         col.set_config(name)
         guarded(col, S.rule_float_siblings, facts)
         guarded(col, S.rule_integer_siblings, facts)
-        guarded(col, X.rule_complete_special_returns, facts)
-        guarded(col, X.rule_ok_requires_digits, facts)
+        guarded_soft(col, X.rule_complete_special_returns, facts)
+        guarded_soft(col, X.rule_ok_requires_digits, facts)
         from rules import sep
         guarded(col, sep.rule_components, facts)
         guarded(col, sep.rule_peek_dispatch, facts)
@@ -25,5 +25,5 @@ def run(col, configs, tier):
         guarded(col, sep.rule_run_skip_bound, facts)
         guarded(col, sep.rule_take_n_twins, facts)
         guarded(col, sep.rule_window_keeps_count, facts)
-        guarded(col, X.rule_suffix_step, facts)
-        guarded(col, X.rule_partial_count_is_position, facts)
+        guarded_soft(col, X.rule_suffix_step, facts)
+        guarded_soft(col, X.rule_partial_count_is_position, facts)
